@@ -19,7 +19,10 @@ A_STORE = [
     "A-CODEC: json/proto/rlp Marshal = snapshot of exported fields (the repository's own Marshal*/Unmarshal* methods are executed), Unmarshal = fresh deep copy; decoding hostile concrete bytes returns an error",
 ]
 
+NODE = P + "node."
+
 CHECKS = {
+    "SMOKE": {"quick": [{"name": NODE + "ZZ_Smoke", "reach": ["smoke end"]}], "assumptions": []},
     "C18": {
         "quick": [
             {"name": LEDGER + "ZZ_C18_Seq3", "reach": ["C18 end"], "bound": "2 keys x 3 operations out of {SetFinality,GetFinality,DelFinality,Set,Get,Del,Read,Commit,ImmutableLedgerAt.Read,Close+reopen}, symbolic values, then a full sweep of all views/versions and a final Commit"},
